@@ -104,3 +104,6 @@ package b6
 //@ func Feature.Reference
 //@   trusted
 //@   ensures result != nil
+// Collecting a collection's keys: nothing is assumed about it.
+//@ func Collection.AllKeys
+//@   havoc
